@@ -457,7 +457,10 @@ Inductive case :=
 (* treeSaver.save: items; observed results of two runs with different completion orders *)
 | CSave (l : list item) (obs1 obs2 : sres)
 (* tree iterator *)
-| CIter (ms : list (bytes * jval)) (obs : ires).
+| CIter (ms : list (bytes * jval)) (obs : ires)
+(* a decodable but incomplete snapshot / tree object (no tree id, directory node without subtree id),
+   correctly authenticated, read by the real CLI in a subprocess: an error is fine, a crash is not *)
+| CNoCrash (crashed : bool).
 
 Definition dres_eqb (a b : dres) : bool :=
   match a, b with
@@ -500,10 +503,11 @@ Definition check_C41 (c : case) : bool :=
     | _ => true
     end
   | CIter _ _ => true
+  | CNoCrash crashed => negb crashed
   end.
 
 (* 0 ok; 1 model <> implementation; 2 oracle false (decoded node differs / time altered /
-   blob not sorted, not the canonical rendering or not decoding to the inserted nodes / scheduling-dependent bytes) *)
+   blob not sorted, not the canonical rendering or not decoding to the inserted nodes / scheduling-dependent bytes); 3 a CLI command crashed (panic) on an incomplete snapshot / tree object *)
 Definition check_case (c : case) : nat :=
   if check_C41 c then
     match c with
@@ -520,7 +524,8 @@ Definition check_case (c : case) : nat :=
     | CBuild l obs _ => if option_eqb bytes_eqb obs (build l) then 0 else 1
     | CSave l o1 _ => if sres_eqb o1 (save l) then 0 else 1
     | CIter ms obs => if ires_eqb obs (iter_nodes ms) then 0 else 1
+    | CNoCrash _ => 0
     end
-  else 2.
+  else match c with CNoCrash _ => 3 | _ => 2 end.
 
 End C41m.
